@@ -22,6 +22,7 @@ ASSUMPTIONS = [
 ]
 SOURCE_FILES = ["barter/src/engine/clock.rs", "barter-execution/src/lib.rs", "barter-execution/src/order/state.rs",
                 "barter/src/engine/mod.rs"]
+PREBUILD = [["python3", "tools/rust2lean_sm.py", "--require", "clock"]]
 
 
 def signature(ops, k, key, impl_line, spec_line):
@@ -49,4 +50,5 @@ LEVEL_TEXT = ("Proof (sub-check of C20). Lean theorems over the clock model (lea
               "bare and inside Engine::process, on every run.")
 LEVEL_NOTE = ("Trusted: Lean kernel; axioms propext/Classical.choice/Quot.sound only; the hand-written model (sampled correspondence: 400 quick / "
               "6 000 random + 16 105 enumerated thorough); harness and driver; chrono. The wall clock is not controllable: time() is bounded "
-              "between two readings, never compared exactly.")
+              "between two readings, never compared exactly. "
+              "Additionally tied by translation: LiveClock::{time, process} and HistoricalClock::{new, time, process} are regenerated from the current clock.rs on every run by tools/rust2lean_sm.py (Generated/Machines2.lean; Utc::now() an explicit parameter, Arc<RwLock<_>> transparent) and proved equal to the model on millisecond-aligned instants (kernels_agree_with_source); the translator and its prelude are trusted for that tie.")
